@@ -141,6 +141,8 @@ def typed_lru(E, name, scheme=None, port=False, hosts=1, paths=0, L=1, www=False
     kinds = []
     if scheme is None:
         scheme = b"http" if E.choose(name + ".scheme", 2) == 0 else b"https"
+    if isinstance(scheme, str):
+        scheme = scheme.encode()
     stems.append(E.const(b"s:" + scheme + b"|"))
     kinds.append("s")
     if port:
